@@ -1100,6 +1100,30 @@ func (c *VCtx) pointAsserts(fr *Frame, st *State, point string, pos token.Pos) {
 		for k, v := range c.assertExtra {
 			sc.vars[k] = v
 		}
+		if fr.curBlock != nil && len(fr.curBlock.Instrs) > 0 {
+			// at a point inside the deferred calls of a returning block: the values about to be returned
+			// (only those already computed; named results are read after the deferred calls and are not bound)
+			if ret, ok := fr.curBlock.Instrs[len(fr.curBlock.Instrs)-1].(*ssa.Return); ok {
+				for j, r := range ret.Results {
+					_, isC := r.(*ssa.Const)
+					var rv Val
+					if _, ok := fr.env[r]; ok || isC {
+						rv = fr.eval(r)
+					} else if u, ok := r.(*ssa.UnOp); ok && u.Op == token.MUL {
+						// the result slot of a function with deferred calls: written before they run
+						if a, ok := u.X.(*ssa.Alloc); ok && fr.env[a] != nil {
+							rv = c.unop(fr, st, u)
+						}
+					}
+					if rv != nil {
+						sc.vars[fmt.Sprintf("result%d", j)] = rv
+						if len(ret.Results) == 1 {
+							sc.vars["result"] = rv
+						}
+					}
+				}
+			}
+		}
 		for j, p := range fr.fn.Params {
 			sc.vars[p.Name()] = fr.env[p]
 			if j == 0 && fr.fn.Signature.Recv() != nil {
